@@ -88,13 +88,13 @@ Proof. intros HPQ HF. induction HF; constructor; auto. Qed.
 
 Theorem anim_lossless_roundtrip : anim_lossless_roundtrip_statement repaired.
 Proof.
-  intros rt_ll rt_ly W H opts frames oracle simple st0 out Hcodec Hdims (Hll & Hmx & Hloop) Hne Hwf Hnew Hclose.
+  intros rt_ll rt_ly W H opts frames oracle has_meta simple st0 out Hcodec Hdims (Hll & Hmx & Hloop) Hne Hwf Hnew Hclose.
   destruct (new_encoder_facts W H opts st0 Hnew)
     as (HW & HH & EW & EH & Erecs & Efc & Eprev & Eloop & Ell & Emx & Eq).
   rewrite <- (clamp_loop_id (eo_loop opts) Hloop), <- Eloop.
   unfold same_show.
   apply (generic_roundtrip norm_px norm_blend norm_zero rt_ll rt_ly repaired eq_refl eq_refl false)
-    with (oracle := oracle) (simple := simple) (st0 := st0); try assumption; try reflexivity.
+    with (oracle := oracle) (has_meta := has_meta) (simple := simple) (st0 := st0); try assumption; try reflexivity.
   - (* the codec hypothesis on the frames that can occur: VP8L only *)
     intros via r Hwfi Hl. unfold decoded. destruct (m_lossy r); [specialize (Hl eq_refl); discriminate|].
     destruct (Hcodec (m_img r) Hwfi) as (Hw & Hh & HF). repeat split; assumption.
@@ -107,12 +107,12 @@ Qed.
 
 Theorem anim_alpha_preserved : anim_alpha_preserved_statement repaired.
 Proof.
-  intros rt_ll rt_ly W H opts frames oracle simple st0 out Hll Hly Hdims (Hq & Hloop) Hne Hwf Hnew Hclose.
+  intros rt_ll rt_ly W H opts frames oracle has_meta simple st0 out Hll Hly Hdims (Hq & Hloop) Hne Hwf Hnew Hclose.
   destruct (new_encoder_facts W H opts st0 Hnew)
     as (HW & HH & EW & EH & Erecs & Efc & Eprev & Eloop & Ell & Emx & Eq).
   rewrite <- (clamp_loop_id (eo_loop opts) Hloop), <- Eloop.
   apply (generic_roundtrip alpha_only alpha_blend) with (rt_ll := rt_ll) (rt_ly := rt_ly)
-    (lossy_fine := true) (oracle := oracle) (simple := simple) (st0 := st0);
+    (lossy_fine := true) (oracle := oracle) (has_meta := has_meta) (simple := simple) (st0 := st0);
     try assumption; try reflexivity.
   - intros p q Hp Hq'. apply alpha_only_eq. lia.
   - intros via r Hwfi _. unfold decoded. destruct (m_lossy r).
